@@ -671,6 +671,10 @@ def judge_c05_prompt(v: View, res: CaseResult, tag='C05'):
     busy = collections.defaultdict(list)
     for d in v.inv.values():
         _, t_end = v.inv_live_end(d)
+        if d['s1'] is not None and d['kind'] != 'gexit':
+            # it did end by itself (perhaps during a later run of its loop - the shutdown phase - after unwinding for a
+            # while): until then a waiter that found its loop running was waiting for something that was in progress
+            t_end = d['t1']
         busy[d['key']].append((d['t0'], t_end if t_end is not None else float('inf')))
     for c in v.calls.values():
         t0 = c['t0']
@@ -701,8 +705,10 @@ def judge_c05_prompt(v: View, res: CaseResult, tag='C05'):
                 continue
             res.stats['idle_waits_judged'] += 1
             # the safety net bounds one wait by 60 s from the moment the waiter began it, which is no earlier
-            # than the start of the idle interval: allowed iff a loop died before it and it is no longer than 60 s
-            excused = (g1 - g0) <= SAFETY + EPS and any(lp != c['loop'] and d - EPS <= g0 for d, lp, _ in v.deaths)
+            # than the start of the idle interval: allowed iff it is no longer than 60 s and a loop died before it *while
+            # this caller was already waiting* (a caller that arrives after the death sees that the loop is gone and takes
+            # over at once; it never needs the safety net)
+            excused = (g1 - g0) <= SAFETY + EPS and any(lp != c['loop'] and t0 - EPS <= d <= g0 + EPS for d, lp, _ in v.deaths)
             if excused:
                 res.stats['allowed_safety_net_stall'] += 1
             else:
